@@ -20,7 +20,7 @@ import random
 
 import numpy as np
 
-from dsim.core import World, Violation, HarnessError
+from dsim.core import World, Violation, HarnessError, stream
 from dsim.ref import gates as R
 from dsim.ref import opmodel as M
 from dsim.worlds import common as C
@@ -42,6 +42,12 @@ MOLS = [
     ("H2", 0.8, ["ccsd", "vqe", "vqe"], True, None),
     ("H4_cation", 0.9, ["ccsd", "vqe", "vqe"], True, [[0], [0]]),
     ("H4_cation", 0.9, ["vqe"], True, [[0, 3], [0, 3]]),
+]
+# restricted open-shell references with a frozen occupied orbital (seeded C13-H: padding must count singly occupied orbitals);
+# drawn on a stream of their own (8 % of the runs) so that the runs of the other molecules stay what they were
+MOLS_EXTRA = [
+    ("H4_cation_f0", 0.9, ["fci", "vqe"], False, None),
+    ("H3_doublet_f0", 0.9, ["fci"], False, None),
 ]
 VQE_ANSATZ = ["UCCSD", "UCCSD", "HEA", "UpCCGSD"]
 # another molecule with the same number of active spin-orbitals but another electron count or spin: what a second user of
@@ -75,6 +81,9 @@ class RdmWorld(World):
         name, d, kinds, uhf, frozen = rng.choice(MOLS)
         if not thorough and name in ("H4", "H4_cation", "H4_ring") and not uhf and rng.random() < 0.5:
             name, d, kinds, uhf, frozen = rng.choice(MOLS[:6])
+        x = stream(self.ctx.run_seed, "open_shell_frozen")
+        if x.random() < 0.08:
+            name, d, kinds, uhf, frozen = x.choice(MOLS_EXTRA)
         return {"mol": name, "d": d, "kinds": kinds, "uhf": uhf, "frozen": frozen, "n_steps": rng.randint(6, 12) if not thorough else rng.randint(8, 18),
                 "shots": rng.choice([None, None, 10 ** 4, 10 ** 5]), "mapping": rng.choice(["jw", "jw", "bk", "scbk", "jkmn"]),
                 "utd": rng.choice([False, True]), "ansatz": rng.choice(VQE_ANSATZ),
@@ -92,8 +101,11 @@ class RdmWorld(World):
     # -- generation ---------------------------------------------------------------------------------------------------
     def gen(self, step):
         rng, cfg = self.ctx.ops, self.config
-        if "vqe" in cfg["kinds"] and not cfg.get("uhf") and cfg["mol"] in NEIGHBOUR and rng.random() < (0.3 if step == 0 else 0.04):
-            return {"k": "neighbour", "seed": rng.randrange(10 ** 9)}
+        if "vqe" in cfg["kinds"] and not cfg.get("uhf") and cfg["mol"] in NEIGHBOUR:
+            # decided on a stream of its own: the histories drawn from ctx.ops stay what they were before this step kind existed
+            nb = self.__dict__.setdefault("_nb_rng", stream(self.ctx.run_seed, "neighbour"))
+            if nb.random() < (0.3 if step == 0 else 0.04):
+                return {"k": "neighbour", "seed": nb.randrange(10 ** 9)}
         if not self.solvers or (len(self.solvers) < 3 and rng.random() < 0.2):
             return {"k": "new", "kind": rng.choice(cfg["kinds"])}
         i = rng.randrange(8)
